@@ -899,4 +899,167 @@ def rule_cap(ctx):
     return r
 
 
-RULES = [rule_costfn, rule_dp, rule_enum, rule_cap]
+# ------------------------------------------------------------------ SORTED / FACTOR
+
+def rule_sorted(ctx):
+    """The DP merges the legs of two subgraphs with a sorted simultaneous iteration; that is only a
+    merge if both inputs are sorted, so every leg list it stores must itself come out of the merge
+    (seed C09_2 added a concatenating fast path) and the processor's initial legs must be sorted."""
+    r = RuleResult("C09-SORTED", "legs handled by the DP are sorted merges of sorted legs", 2)
+    f = _dp(ctx)
+    w = _sieve_loop(f)
+    fl = ctx.flow(f)
+    cost_fn_names = set()
+    for n in f.node.body:
+        if isinstance(n, ast.Assign) and isinstance(n.value, ast.Call) and dotted(n.value.func) == PARSER:
+            cost_fn_names.add(n.targets[0].id)
+    calls = [n for n in ast.walk(w) if isinstance(n, ast.Call) and dotted(n.func) in cost_fn_names]
+    C.require(calls and calls[0].args and isinstance(calls[0].args[0], ast.Name),
+              f"{f.qual}: step-cost call with a named leg list not found")
+    legs = calls[0].args[0].id
+    at = fl.cfg.containing(calls[0], f.module.parents)
+    k = ctx.key(f, "C09-SORTED", "merge-only")
+    # the merge loop: a while whose test compares two pointers with two lengths
+    merges = [n for n in ast.walk(w) if isinstance(n, ast.While) and n is not w]
+    C.require(merges, f"{f.qual}: sorted merge loop not found")
+    mw = merges[0]
+    ptrs = {x.id for x in ast.walk(mw.test) if isinstance(x, ast.Name)}
+    bad = None
+    for d in fl.defs_reaching(legs, at.id):
+        if d.kind != "assign":
+            continue
+        if d.strong:
+            if not (isinstance(d.value, ast.List) and not d.value.elts):
+                bad = f"`{legs} = {C.unparse(d.value, 50)}`"
+        else:
+            st = fl.cfg.nodes[d.node].ast
+            call = None
+            for x in ast.walk(st):
+                if isinstance(x, ast.Call) and isinstance(x.func, ast.Attribute) and dotted(x.func.value) == legs:
+                    call = x
+            if call is None:
+                continue
+            if call.func.attr == "append":
+                if not any(st is y for y in ast.walk(mw)):
+                    bad = f"`{C.unparse(call, 50)}` outside the merge loop"
+            elif call.func.attr == "extend":
+                a = call.args[0] if call.args else None
+                tail = isinstance(a, ast.Subscript) and isinstance(a.slice, ast.Slice) and a.slice.upper is None \
+                    and isinstance(a.slice.lower, ast.Name) and a.slice.lower.id in ptrs
+                if not tail:
+                    bad = f"`{C.unparse(call, 50)}` is not the remaining tail of a merged operand"
+            else:
+                bad = f"`{C.unparse(call, 50)}`"
+    if bad:
+        r.violation(k, C.loc(f, calls[0]), f"the legs handed to the step cost / stored in the memo can come from "
+                    f"{bad}, not from the sorted merge: an unsorted leg list makes every later merge miss shared "
+                    f"indices (they are never summed, never contracted, and the subtree is over-costed)")
+    else:
+        r.ok(k, C.loc(f, calls[0]), f"`{legs}` = [] + appends inside the merge loop + the two remaining tails")
+    # initial legs sorted
+    cp = ctx.p.cls(C.BASIC, "ContractionProcessor")
+    init = cp.methods.get("__init__")
+    k = ctx.key(init, "C09-SORTED", "initial")
+    stores = [n for n in walk_local(init.node) if isinstance(n, ast.Assign) and isinstance(n.targets[0], ast.Subscript)
+              and dotted(n.targets[0].value) == "self.nodes"]
+    C.require(stores, "ContractionProcessor.__init__: store of the initial legs not found")
+    st = stores[0]
+    v = st.value
+    srt = "sorted(" in C.unparse(v)
+    if not srt:
+        inner = v.args[0] if isinstance(v, ast.Call) and v.args else v
+        nm = dotted(inner)
+        blk = None
+        par = init.module.parents.get(st)
+        for fld in ("body", "orelse"):
+            b = getattr(par, fld, None)
+            if isinstance(b, list) and any(x is st for x in b):
+                blk = b
+        if blk is not None and nm:
+            idx = [i for i, x in enumerate(blk) if x is st][0]
+            srt = any(isinstance(x, ast.Expr) and isinstance(x.value, ast.Call) and isinstance(x.value.func, ast.Attribute)
+                      and x.value.func.attr == "sort" and dotted(x.value.func.value) == nm for x in blk[:idx])
+    if srt:
+        r.ok(k, C.loc(init, st), "input legs are sorted before they are stored")
+    else:
+        r.violation(k, C.loc(init, st), "the legs of the input tensors are stored unsorted: the sorted merges of "
+                    "the optimal and greedy searches miss shared indices")
+    return r
+
+
+def rule_factor(ctx):
+    """'combo-{k}' / 'limit-{k}': the weight k is read from a capture group of a regular expression;
+    the group must contain the whole number (a *repeated* capture group keeps only its last
+    repetition - seed C09_3 turned `(\\d*)` into `(\\d)*`)."""
+    import re._parser as sre  # stdlib regex parser: the pattern is analysed, not executed
+
+    r = RuleResult("C09-FACTOR", "the objective's weight is parsed completely", 1)
+    f = ctx.p.func(C.BASIC, PARSER)
+    pats = [n for n in walk_local(f.node) if isinstance(n, ast.Call) and (dotted(n.func) or "").endswith("compile")
+            and n.args and isinstance(n.args[0], ast.Constant) and isinstance(n.args[0].value, str)]
+    if not pats:
+        r.exempt(ctx.key(f, "C09-FACTOR", "pattern"), f.loc, "the weight is not parsed with a regular expression")
+        return r
+    pat = pats[0].args[0].value
+    k = ctx.key(f, "C09-FACTOR", "pattern")
+    try:
+        tree = sre.parse(pat)
+    except Exception as e:  # noqa: BLE001
+        r.violation(k, C.loc(f, pats[0]), f"the pattern {pat!r} does not compile: {e}")
+        return r
+    probs = []
+    digit_groups = 0
+
+    def has_digit(items):
+        for op, av in items:
+            name = str(op)
+            if name == "IN":
+                if any(str(o) == "CATEGORY" and "DIGIT" in str(a) for o, a in av):
+                    return True
+                if any(str(o) == "RANGE" and a == (48, 57) for o, a in av):
+                    return True
+            elif name in ("MAX_REPEAT", "MIN_REPEAT"):
+                if has_digit(av[2]):
+                    return True
+            elif name == "SUBPATTERN":
+                if has_digit(av[3]):
+                    return True
+            elif name == "BRANCH":
+                if any(has_digit(b) for b in av[1]):
+                    return True
+        return False
+
+    def walk(items, repeated):
+        nonlocal digit_groups
+        for op, av in items:
+            name = str(op)
+            if name in ("MAX_REPEAT", "MIN_REPEAT"):
+                lo, hi, sub = av
+                walk(sub, repeated or hi > 1)
+            elif name == "SUBPATTERN":
+                gid, _, _, sub = av
+                if gid is not None and has_digit(sub):
+                    digit_groups += 1
+                    if repeated:
+                        probs.append(f"capture group {gid} (digits) is itself repeated: only its last repetition "
+                                     f"(one digit) is kept, 'combo-32' is read as 2")
+                    # inside: the digits must be repeated
+                    inner_rep = any(str(o) in ("MAX_REPEAT", "MIN_REPEAT") and a[1] > 1 and has_digit(a[2]) for o, a in sub)
+                    if not inner_rep and not repeated:
+                        probs.append(f"capture group {gid} matches a single digit only")
+                walk(sub, repeated)
+            elif name == "BRANCH":
+                for b in av[1]:
+                    walk(b, repeated)
+
+    walk(tree, False)
+    if digit_groups == 0:
+        probs.append("no capture group for the numeric weight")
+    if probs:
+        r.violation(k, C.loc(f, pats[0]), f"{pat!r}: " + "; ".join(probs))
+    else:
+        r.ok(k, C.loc(f, pats[0]), f"{pat!r}: the weight is one capture group of repeated digits")
+    return r
+
+
+RULES = [rule_costfn, rule_dp, rule_enum, rule_cap, rule_sorted, rule_factor]
